@@ -230,3 +230,14 @@ func main() {
 		os.Exit(2)
 	}
 }
+
+// guardCase runs one engine case; a panic escaping the case's own monitors (a
+// subject call that was not individually wrapped) is reported as a violation of
+// the engine's primary property instead of killing the process.
+func guardCase(rep *Report, prop, engine, typ string, idx int, f func()) {
+	pan, pmsg := safely(f)
+	if pan {
+		rep.Violate(prop, engine+"/unhandled-panic", typ, "a call into the subject panicked outside the per-call monitors: "+pmsg,
+			replayCase{Engine: engine, Type: typ, Seed: *flagSeed, Index: idx})
+	}
+}
